@@ -675,7 +675,7 @@ def run_C04(ctx):
     consts = session_consts(OpSet='{"ufunc"}', LeafSet='{Numpy("int64", <<1, 2, 3, 4>>)}', MaxDepth="1", MaxLen="4", Classes='{"List"}')
     ctx.l2_phase("ufunc-listarray-orderings", "Session", consts, ("l2replay", "h_c04"), invariants=["Closed"],
                  require_actions=["UfuncOp", "WrapList"], sample_cases=(25000 if q else 250000), timeout=1200)
-    ctx.pychain_phase("python-chains-code-to-spec", (4000 if ctx.quick() else 60000), 5, ops={"ufunc", "addmasked", "filter", "bcperm"})
+    ctx.pychain_phase("python-chains-code-to-spec", (4000 if ctx.quick() else 60000), 5, ops={"ufunc", "addmasked", "filter", "bcperm", "like", "nantonum"})
     return ctx.finish(rule="case = (one or two layouts, scalar, ufunc/operator/broadcast_arrays form); executed through numpy ufuncs / Python "
                            "operators / ak.broadcast_arrays of /repo's Python layer; rectilinear pairs are additionally compared with NumPy itself",
                       assumptions=[L2_TRUSTED, "unions and records under ufuncs are outside this model (Unspec / must raise)",
